@@ -94,7 +94,7 @@ type plan struct {
 	Base   string           `json:"base"`
 	Drops  []tcpx.DropRule  `json:"drops"`
 	Delays []tcpx.DelayRule `json:"delays,omitempty"`
-	Class string          `json:"class"`
+	Class  string           `json:"class"`
 }
 
 func judge(b *base, pl *plan, sc *tcpx.Scenario, res *tcpx.Result) {
@@ -118,6 +118,14 @@ func judge(b *base, pl *plan, sc *tcpx.Scenario, res *tcpx.Result) {
 	}
 	if res.PastEOF != "" {
 		run.Violation("C02/data-after-eof/"+pl.Base, res.PastEOF, replay)
+	}
+	if res.Stalled && !res.Connected && strings.HasPrefix(res.ConnectErr, "accept:") {
+		if key, why, judged := halfOpen(res); judged {
+			run.Violation(key, fmt.Sprintf("base %s, dropped %v: %s", b.Name, pl.Drops, why), replay)
+		} else {
+			run.Count("half_open_beyond_fault_bound(not judged)", 1)
+		}
+		return
 	}
 	if res.Stalled {
 		key := "C02/stall/" + b.Name + "/drop=" + pl.Class
@@ -160,10 +168,33 @@ func judge(b *base, pl *plan, sc *tcpx.Scenario, res *tcpx.Result) {
 	run.Count("closed_state_checked", 1)
 }
 
+// halfOpen classifies a run in which the active side's Connect succeeded but the passive
+// side never handed a connection to Accept. judged=false: every segment the active side
+// emitted during the handshake was dropped by the fault plan and there were more than two
+// of them - outside the property's fault bound (the passive side exhausted its SYN-ACK
+// retransmissions; nothing reached it).
+func halfOpen(res *tcpx.Result) (key, why string, judged bool) {
+	h := res.Hs
+	switch {
+	case h.SynAckUnanswered:
+		return "C02/stall/handshake/retransmitted-synack-unanswered", fmt.Sprintf("the active side is established, the passive side retransmitted its SYN-ACK (%d emitted, %d delivered) and the last one delivered drew no segment from the active side (%d emitted in all): the lost handshake ACK is never repeated", h.SynAckEmitted, h.SynAckDelivered, h.ClientEmitted), true
+	case h.ClientDelivered > 0:
+		return "C02/stall/handshake/ack-delivered-never-accepted", fmt.Sprintf("%d segments of the established active side reached the passive side (%d SYN-ACKs emitted), yet no connection was ever handed to Accept and nothing failed", h.ClientDelivered, h.SynAckEmitted), true
+	case h.ClientDropped <= 2:
+		return "C02/stall/handshake/not-recovered", fmt.Sprintf("only %d handshake segments of the active side were lost (SYN-ACKs: %d emitted, %d delivered) and the passive side gave up or went quiet without the connection failing on the active side", h.ClientDropped, h.SynAckEmitted, h.SynAckDelivered), true
+	}
+	return "", fmt.Sprintf("all %d handshake segments of the active side were dropped by the fault plan", h.ClientDropped), false
+}
+
 func stallKey(sc *tcpx.Scenario, res *tcpx.Result) (string, string) {
 	// which direction still has data outstanding?
-	for d := 0; d < 2; d++ {
-		if res.Dir[d].Read < int64(sc.Bytes[d]) || !res.Dir[d].EOF {
+	// directions with unread data first; a direction whose only missing item is the
+	// end-of-stream may simply not have been closed yet (close order), so it comes second
+	for pass := 0; pass < 2; pass++ {
+		for d := 0; d < 2; d++ {
+			if pass == 0 && res.Dir[d].Read >= int64(sc.Bytes[d]) || pass == 1 && (res.Dir[d].Read < int64(sc.Bytes[d]) || res.Dir[d].EOF) {
+				continue
+			}
 			if res.LastWndDelivered[d] == 0 && res.LastWndEmitted[d] > 0 {
 				if res.LastWndDropped[d] {
 					return "C02/stall/closed-window/lost-window-update", fmt.Sprintf("direction %d: the sender last saw window 0; the receiver's latest segment (window %d) was lost", d, res.LastWndEmitted[d])
@@ -196,7 +227,14 @@ func randomChild(t *testing.T) {
 			if strings.HasPrefix(res.ConnectErr, "harness:") {
 				run.Broken(res.ConnectErr)
 			}
-			if res.Stalled {
+			if res.Stalled && !res.Connected && strings.HasPrefix(res.ConnectErr, "accept:") {
+				if key, why, judged := halfOpen(&res); judged {
+					run.Violation(key, fmt.Sprintf("random-fault scenario %d: %s", k, why), map[string]interface{}{"scenario": sc, "result": res})
+				} else {
+					run.Count("random_half_open_beyond_fault_bound(not judged)", 1)
+					run.Sample(fmt.Sprintf("random scenario %d not judged: %s (SYN-ACKs emitted %d, delivered %d)", k, why, res.Hs.SynAckEmitted, res.Hs.SynAckDelivered))
+				}
+			} else if res.Stalled {
 				key, why := stallKey(sc, &res)
 				run.Violation(key, fmt.Sprintf("random-fault scenario %d: quiet for more than 6 virtual minutes with data or FIN outstanding and no explicit error (read %d/%d and %d/%d, last packets at %v / %v, deadline %v): %s", k, res.Dir[0].Read, sc.Bytes[0], res.Dir[1].Read, sc.Bytes[1], res.LastTx[0], res.LastTx[1], res.Virtual, why), map[string]interface{}{"scenario": sc, "result": res})
 			} else if res.Connected && res.Dir[0].EOF && res.Dir[1].EOF {
